@@ -3,10 +3,12 @@ package main
 import (
 	"bytes"
 	"encoding/json"
+	"encoding/xml"
 	"fmt"
 	"html"
 	"io"
 	"strings"
+	"unicode/utf8"
 )
 
 // ---- HTML ------------------------------------------------------------------
@@ -120,6 +122,69 @@ func lexHTML(s string) []interface{} {
 		i = k
 	}
 	return toks
+}
+
+// xmlCrossCheck reads the same output with encoding/xml's strict decoder (the
+// renderer's output is also well-formed XML) and compares the token structure
+// with lexHTML's: 1 = same, 0 = the two readers disagree (the hand-written
+// tokenizer is then not to be trusted for this output), -1 = not comparable
+// (characters or entities XML does not allow, or not well-formed XML).
+func xmlCrossCheck(s string, toks []interface{}) int {
+	for _, r := range s {
+		if r < 0x20 && r != '\n' && r != '\t' && r != '\r' {
+			return -1
+		}
+		if r == 0xFFFE || r == 0xFFFF || r == utf8.RuneError {
+			return -1
+		}
+	}
+	dec := xml.NewDecoder(strings.NewReader(s))
+	dec.Strict = true
+	var xt []interface{}
+	inCell := false
+	pendingText := ""
+	flushText := func() {
+		if pendingText != "" && (inCell || strings.TrimSpace(pendingText) != "") {
+			xt = append(xt, []interface{}{"text", pendingText})
+		}
+		pendingText = ""
+	}
+	for {
+		t, err := dec.Token()
+		if err == io.EOF {
+			break
+		}
+		if err != nil {
+			return -1
+		}
+		switch e := t.(type) {
+		case xml.StartElement:
+			flushText()
+			attrs := []interface{}{}
+			for _, a := range e.Attr {
+				attrs = append(attrs, []interface{}{a.Name.Local, a.Value})
+			}
+			xt = append(xt, []interface{}{"open", e.Name.Local, attrs})
+			inCell = e.Name.Local == "th" || e.Name.Local == "td" || e.Name.Local == "caption"
+		case xml.EndElement:
+			flushText()
+			xt = append(xt, []interface{}{"close", e.Name.Local})
+			inCell = false
+		case xml.CharData:
+			pendingText += strings.ReplaceAll(string(e), "\r\n", "\n")
+		default:
+			return 0
+		}
+	}
+	flushText()
+	norm := func(v interface{}) string {
+		b, _ := json.Marshal(v)
+		return strings.ReplaceAll(strings.ReplaceAll(string(b), "\\r\\n", "\\n"), "\\r", "\\n")
+	}
+	if norm(xt) == norm(toks) {
+		return 1
+	}
+	return 0
 }
 
 // ---- JSON ------------------------------------------------------------------
